@@ -172,6 +172,7 @@ type c09Env struct {
 	async  map[int]chan string
 	aclose chan struct{}
 	closed bool
+	diverged bool
 }
 
 func c09NewEnv(toks []string, expMs int) *c09Env {
@@ -290,12 +291,17 @@ func c09SpawnIdle() bool {
 		buf = make([]byte, 2*len(buf))
 	}
 	for _, g := range strings.Split(string(buf), "\n\n") {
+		head := g
+		if i := strings.IndexByte(g, '\n'); i >= 0 {
+			head = g[:i]
+		}
 		if strings.Contains(g, ").spawnLoop(") {
-			head := g
-			if i := strings.IndexByte(g, '\n'); i >= 0 {
-				head = g[:i]
-			}
 			if !strings.Contains(head, "[chan receive") {
+				return false
+			}
+		} else if strings.Contains(g, ".generateWorkerWithMaximum.func1") {
+			// a worker: in its select, inside a gated job, or held at a park point — anything else is in motion
+			if !strings.Contains(head, "[select") && !strings.Contains(head, "[chan receive") {
 				return false
 			}
 		}
@@ -303,7 +309,23 @@ func c09SpawnIdle() bool {
 	return true
 }
 
-func (e *c09Env) settle() { c09Until(c09Wait, c09SpawnIdle) }
+// wait bounds: generous while the run follows the prediction, short once a wait has already timed out in this
+// case (the run has left the predicted path; the remaining observations only document where it went)
+func (e *c09Env) bound() time.Duration {
+	if e.diverged {
+		return 150 * time.Millisecond
+	}
+	return c09Wait
+}
+func (e *c09Env) until(cond func() bool) bool {
+	ok := c09Until(e.bound(), cond)
+	if !ok {
+		e.diverged = true
+	}
+	return ok
+}
+
+func (e *c09Env) settle() { e.until(c09SpawnIdle) }
 
 func c09Until(d time.Duration, cond func() bool) bool {
 	deadline := time.Now().Add(d)
@@ -388,7 +410,7 @@ func (e *c09Env) op(tok string) string {
 		job := e.mkJob(k, f[2], 0)
 		before := e.ctl.parkedAt(c09Points["sched"])
 		go func() { ch <- c09Err(e.pool.Schedule(job)) }()
-		if c09Until(c09Wait, func() bool { return e.ctl.parkedAt(c09Points["sched"]) > before }) {
+		if e.until(func() bool { return e.ctl.parkedAt(c09Points["sched"]) > before }) {
 			return fmt.Sprintf("as%d=parked", k)
 		}
 		return fmt.Sprintf("as%d=notparked", k)
@@ -402,7 +424,8 @@ func (e *c09Env) op(tok string) string {
 			ch <- r
 			e.settle()
 			return fmt.Sprintf("j%d=%s", num(1), r)
-		case <-time.After(c09Wait):
+		case <-time.After(e.bound()):
+			e.diverged = true
 			return fmt.Sprintf("j%d=pending", num(1))
 		}
 	case "r":
@@ -419,7 +442,7 @@ func (e *c09Env) op(tok string) string {
 		hc, _ := strconv.Atoi(h[0])
 		hb, _ := strconv.Atoi(h[1])
 		hf, _ := strconv.Atoi(h[2])
-		c09Until(c09Wait, func() bool {
+		e.until(func() bool {
 			wc, wb := e.pool.VerifCounts()
 			return wc == hc && wb == hb && int(atomic.LoadInt32(&e.finTot)) == hf && c09SpawnIdle()
 		})
@@ -430,7 +453,7 @@ func (e *c09Env) op(tok string) string {
 		e.ctl.park(pt(1), num(2))
 		return "park"
 	case "wp":
-		c09Until(c09Wait, func() bool { return e.ctl.parkedAt(pt(1)) >= num(2) })
+		e.until(func() bool { return e.ctl.parkedAt(pt(1)) >= num(2) })
 		return fmt.Sprintf("wp=%d", e.ctl.parkedAt(pt(1)))
 	case "rel":
 		e.ctl.release(pt(1))
@@ -443,7 +466,7 @@ func (e *c09Env) op(tok string) string {
 	case "aclose":
 		e.aclose = make(chan struct{})
 		go func() { e.pool.Close(); close(e.aclose) }()
-		if c09Until(c09Wait, func() bool { return e.ctl.parkedAt(c09Points["closeflag"]) >= 1 }) {
+		if e.until(func() bool { return e.ctl.parkedAt(c09Points["closeflag"]) >= 1 }) {
 			return "aclose=parked"
 		}
 		return "aclose=notparked"
@@ -454,11 +477,13 @@ func (e *c09Env) op(tok string) string {
 		select {
 		case <-e.aclose:
 			return "jclose=done"
-		case <-time.After(c09Wait):
+		case <-time.After(e.bound()):
+			e.diverged = true
 			return "jclose=pending"
 		}
 	case "pre":
 		e.pool.PreAllocWorkerSize(num(1))
+		e.settle()
 		return "pre"
 	case "exp":
 		e.pool.SetWorkerExpiryDuration(c09Dur(num(1)))
@@ -468,7 +493,7 @@ func (e *c09Env) op(tok string) string {
 		time.Sleep(time.Duration(num(1)) * time.Millisecond)
 		return "sleep"
 	case "expire":
-		c09Until(c09Wait, func() bool { return e.ctl.arrivedAt(c09Points["expiry"]) >= num(1) })
+		e.until(func() bool { return e.ctl.arrivedAt(c09Points["expiry"]) >= num(1) })
 		time.Sleep(15 * time.Millisecond)
 		return fmt.Sprintf("expire=%d", e.ctl.arrivedAt(c09Points["expiry"]))
 	}
